@@ -4,7 +4,8 @@ import ScryerModel.Model.Embed
    `hist <id> <clearBall 0|1> <discardOnDrop 0|1> <db> <k>:<tpl>|<k>:<tpl>|…`
        runs the history on the protocol model (`runHistory`) from a fresh machine with database <db>
    `spec <id> <db> <same history>`
-       prints the specification (`specHistory`: every query judged on its own)
+       prints the specification (`specHistory`: every query judged on its own), each query's items
+       followed by ` @ <database after it>`
    <db>  = comma separated integers, `-` for the empty database
    <tpl> = space separated words, see `tpl?`
    output: items of each query joined by ` ;; `, queries joined by ` | `, then ` # <final db>`
@@ -61,7 +62,11 @@ def main : IO Unit := runDriver fun
   | "spec" :: _ :: db :: h :: _ =>
       match ints? db, (h.splitOn "|").mapM query? with
       | some d, some qs =>
-          let r := specHistory d qs
-          showHist r.1 ++ " # " ++ showList r.2
+          -- per query: items, then `@` and the database after it
+          let step := fun (acc : List String × Db) (qk : Query Db × Nat) =>
+            let r := specHistory acc.2 [qk]
+            (acc.1 ++ [" ;; ".intercalate ((r.1.headD []).map showItem) ++ " @ " ++ showList r.2], r.2)
+          let r := qs.foldl step ([], d)
+          " | ".intercalate r.1 ++ " # " ++ showList (specHistory d qs).2
       | _, _ => "bad-op"
   | _ => "bad-op"
